@@ -373,9 +373,21 @@ func faultHistory(run *vh.Run, rng *vh.Rng, hi int) {
 	for _, pi := range rng.Perm(len(rest))[:rng.Range(3, 5)] {
 		plan = append(plan, rest[pi])
 	}
+	// every history deletes a keystore once (a delete that fails half-way must leave the keystore usable), every
+	// other one with the wallet unlocked
+	hasDelete := false
+	for _, k := range plan {
+		hasDelete = hasDelete || k == "delete"
+	}
+	if !hasDelete {
+		plan = append(plan, "delete")
+	}
 	nops := len(plan)
 	for j := 0; j < nops; j++ {
 		op := genOpKind(rng, wd, plan[j])
+		if op.Kind == "delete" && wd.priv != nil {
+			op.Unlock, op.Priv = hi%2 == 0, string(wd.priv)
+		}
 		trace = append(trace, op.String())
 		privs := map[string][]byte{"old": wd.priv}
 		pubs := map[string][]byte{"old": wd.pub}
@@ -456,6 +468,23 @@ func faultHistory(run *vh.Run, rng *vh.Rng, hi int) {
 					}
 					if _, err := ww.M.SignHash(wl.ParsePub(ks.Keys[0].Pub), digest[:]); err != nil {
 						out.signFail = fmt.Sprintf("keystore %s key %s: %v", ks.ID, ks.Keys[0].Pub, err)
+						break
+					}
+				}
+			}
+			if cont && !out.crashed && out.err != nil && op.Unlock && !ww.M.IsLocked() && out.signFail == "" {
+				// keystores without a key yet: issue one and sign with it (an unlocked wallet signs for every key it issues)
+				digest := sha256.Sum256([]byte("cont" + tag))
+				for _, ks := range pre.Ks {
+					if len(ks.Keys) > 0 {
+						continue
+					}
+					mas, err := ww.M.NextAddresses(ks.ID, false, 1)
+					if err != nil || len(mas) != 1 {
+						continue
+					}
+					if _, err := ww.M.SignHash(mas[0].PubKey(), digest[:]); err != nil {
+						out.signFail = fmt.Sprintf("keystore %s, key issued after the failed operation: %v", ks.ID, err)
 						break
 					}
 				}
@@ -584,8 +613,11 @@ func faultHistory(run *vh.Run, rng *vh.Rng, hi int) {
 			// the faults that leave the process running (all of them for passphrase changes, one in six otherwise) are
 			// executed again, and this time the user
 			// carries on with the running instance (new keystore, address), closes and reopens
-			if err == nil && !out.crashed && (plan.Kind == "write" || plan.Kind == "commit") && (op.Kind == "chpub" || op.Kind == "chpriv" || (hi+j+pi)%6 == 0) {
+			if err == nil && !out.crashed && (plan.Kind == "write" || plan.Kind == "commit") && (op.Kind == "chpub" || op.Kind == "chpriv" || op.Kind == "delete" || (hi+j+pi)%6 == 0) {
 				o2, _, _, dir2, ok2 := execOn(fmt.Sprintf("c%d", pi), plan, true)
+				if ok2 && o2.signFail != "" {
+					run.Violate(ci, "running-instance-changed-although-operation-failed", attrs, detail(map[string]interface{}{"diff": "an unlocked keystore no longer signs: " + o2.signFail}))
+				}
 				if ok2 && !o2.crashed && o2.contPass != nil {
 					run.Count("continuations_after_faulted_operation", 1)
 					p2 := map[string][]byte{"cont": o2.contPass}
